@@ -467,3 +467,214 @@ def run(stmts, env: Env, hooks=None):
         else:
             raise ValueError(s)
     return env
+
+
+# ------------------------------------------------------------------------------------------
+# syntactic transformations used to build twins (unrolling, inlining)
+# ------------------------------------------------------------------------------------------
+def subst_expr(e, consts=None, names=None):
+    """Replace variables: consts {name: expr} (substitution), names {old: new} (renaming;
+    also applies to memory / entity / function-free identifiers)."""
+    consts = consts or {}
+    names = names or {}
+    if not isinstance(e, tuple) or not e:
+        return e
+    k = e[0]
+    if k == "var":
+        if e[1] in consts:
+            c = consts[e[1]]
+            return c if c[0] in ("int", "var") and not (c[0] == "int" and c[1] < 0) else ("paren", c)
+        return ("var", names.get(e[1], e[1]))
+    if k == "read":
+        return ("read", names.get(e[1], e[1]))
+    if k in ("lit", "proj"):
+        t = e[1] if k == "lit" else e[2]
+        if isinstance(t, tuple) and t[0] == "typeof":
+            if t[1] in consts:
+                if consts[t[1]][0] != "var":
+                    raise ValueError(".type of a parameter bound to a non-variable cannot be inlined")
+                t = ("typeof", consts[t[1]][1])
+            else:
+                t = ("typeof", names.get(t[1], t[1]))
+        if k == "lit":
+            return ("lit", t, subst_expr(e[2], consts, names))
+        return ("proj", subst_expr(e[1], consts, names), t)
+    if k == "call":
+        return ("call", e[1], tuple(subst_expr(a, consts, names) for a in e[2]))
+    if k == "bundle":
+        return ("bundle", tuple(subst_expr(a, consts, names) for a in e[1]))
+    return tuple(subst_expr(p, consts, names) if isinstance(p, tuple) else p for p in e)
+
+
+def declared_names(stmts):
+    out = []
+    for s in stmts:
+        if s[0] == "decl":
+            out.append(s[2])
+        elif s[0] == "mem":
+            out.append(s[1])
+        elif s[0] == "place" and s[1]:
+            out.append(s[1])
+    return out
+
+
+def subst_stmts(stmts, consts=None, names=None):
+    out = []
+    names = dict(names or {})
+    for k, v in (consts or {}).items():      # a parameter bound to a plain name (entity, memory)
+        if v[0] == "var" and k not in names:
+            names[k] = v[1]
+    for s in stmts:
+        k = s[0]
+        if k == "decl":
+            out.append(("decl", s[1], names.get(s[2], s[2]), subst_expr(s[3], consts, names)))
+        elif k == "mem":
+            out.append(("mem", names.get(s[1], s[1]), s[2]))
+        elif k == "write":
+            out.append(("write", names.get(s[1], s[1]), subst_expr(s[2], consts, names),
+                        subst_expr(s[3], consts, names) if s[3] is not None else None))
+        elif k == "latch":
+            out.append(("latch", names.get(s[1], s[1]), subst_expr(s[2], consts, names),
+                        subst_expr(s[3], consts, names), subst_expr(s[4], consts, names), s[5]))
+        elif k == "place":
+            out.append(("place", names.get(s[1], s[1]) if s[1] else s[1], s[2], subst_expr(s[3], consts, names),
+                        subst_expr(s[4], consts, names), s[5]))
+        elif k == "prop":
+            out.append(("prop", names.get(s[1], s[1]), s[2], subst_expr(s[3], consts, names)))
+        elif k == "expr":
+            out.append(("expr", subst_expr(s[1], consts, names)))
+        elif k == "for":
+            it = s[2]
+            if it[0] == "range":
+                def b(x):
+                    if isinstance(x, str) and consts and x in consts and consts[x][0] == "int":
+                        return consts[x][1]
+                    return names.get(x, x) if isinstance(x, str) else x
+                it = ("range", b(it[1]), b(it[2]), b(it[3]) if it[3] is not None else None)
+            out.append(("for", s[1], it, tuple(subst_stmts(s[3], consts, names))))
+        else:
+            out.append(s)
+    return out
+
+
+def unroll(stmts, env_consts=None):
+    """Replace every for loop by copies of its body (iterator substituted, body-local names
+    renamed apart).  env_consts: {int variable name: value} for bounds given by variables."""
+    env_consts = dict(env_consts or {})
+    out = []
+    counter = [0]
+
+    def go(ss, depth_tag):
+        res = []
+        for s in ss:
+            if s[0] == "decl" and s[1] == "int" and s[3][0] == "int":
+                env_consts[s[2]] = s[3][1]
+            if s[0] != "for":
+                res.append(s)
+                continue
+            e = Env()
+            for k, v in env_consts.items():
+                e.vars[k] = Int(v)
+            for val in loop_values(s[2], e):
+                counter[0] += 1
+                tag = f"_u{counter[0]}"
+                body = go(list(s[3]), tag)
+                local = {n: n + tag for n in declared_names(body)}
+                res += subst_stmts(body, {s[1]: ("int", val)}, local)
+        return res
+    return go(list(stmts), "")
+
+
+def _calls_in(e, acc):
+    if isinstance(e, tuple) and e:
+        if e[0] == "call":
+            for a in e[2]:
+                _calls_in(a, acc)
+            acc.append(e)
+        else:
+            for p in e[1:]:
+                if isinstance(p, tuple):
+                    _calls_in(p, acc)
+    return acc
+
+
+def _replace(e, target, repl):
+    if e == target:
+        return repl
+    if isinstance(e, tuple) and e:
+        return tuple(_replace(p, target, repl) if isinstance(p, tuple) else p for p in e)
+    return e
+
+
+def inline_calls(stmts):
+    """Replace every call by the callee's body (parameters substituted by the argument
+    expressions, locals renamed apart, return expression in place of the call)."""
+    funcs = {}
+    counter = [0]
+
+    def expand(call):
+        params, body, ret = funcs[call[1]]
+        counter[0] += 1
+        tag = f"_c{counter[0]}"
+        consts = {}
+        for (pt, pn), a in zip(params, call[2]):
+            consts[pn] = a
+        body = go(list(body))
+        local = {n: n + tag for n in declared_names(body)}
+        pre = subst_stmts(body, consts, local)
+        r = None
+        if ret is not None:
+            r0 = ret
+            # the return expression may itself contain calls
+            sub_pre, r0 = expr_calls(r0)
+            pre_ret = subst_stmts(sub_pre, consts, local)
+            # names declared by nested expansions are already unique
+            pre = pre + pre_ret
+            r = subst_expr(r0, consts, local)
+        return pre, r, local
+
+    def expr_calls(e):
+        pre = []
+        while True:
+            calls = _calls_in(e, [])
+            if not calls:
+                return pre, e
+            c = calls[0]
+            p, r, _ = expand(c)
+            pre += p
+            e = _replace(e, c, ("paren", r) if r is not None and r[0] not in ("var", "int") else r)
+
+    def go(ss):
+        out = []
+        for s in ss:
+            k = s[0]
+            if k == "func":
+                funcs[s[1]] = (s[2], s[3], s[4])
+                continue
+            if k == "for":
+                out.append(("for", s[1], s[2], tuple(go(list(s[3])))))
+                continue
+            if k == "decl" and s[1] == "Entity" and s[3][0] == "call":
+                pre, r, local = expand(s[3])
+                # entity-returning function: the returned local entity *is* the declared entity
+                if r is not None and r[0] == "var":
+                    pre = subst_stmts(pre, None, {r[1]: s[2]})
+                    out += pre
+                    continue
+            if k == "expr" and s[1][0] == "call":
+                pre, r, _ = expand(s[1])
+                out += pre
+                continue
+            # generic: expand calls inside the statement's expressions
+            parts = list(s)
+            pre_all = []
+            for i, p in enumerate(parts):
+                if isinstance(p, tuple) and p and isinstance(p[0], str) and i > 0 and k not in ("func",):
+                    if k == "place" and i == 5:
+                        continue
+                    pre, parts[i] = expr_calls(p)
+                    pre_all += pre
+            out += pre_all
+            out.append(tuple(parts))
+        return out
+    return go(list(stmts))
